@@ -15,7 +15,8 @@ RULE = ("requirement trees (name with mixed case and -_. runs, extras list, bare
         "literals, all 10 operators, requested extras) generated from the PEP 508 grammar and printed by the extracted "
         "Gallina printer; a marker case is non-trivial when it has at least two atoms or a requested extra and evaluates "
         "to a defined value; a requirement case is non-trivial when it has at least two of extras/specifier/marker; "
-        "malformed streams are counted separately (ok/err/panic only)")
+        "multi-marker universes (marker_multi) group a marker with near-duplicates of it and count as non-trivial when "
+        "their members differ in value; malformed streams are counted separately (ok/err/panic only)")
 TRUSTED = [
     "Coq 8.16.1 kernel; vm_compute for table checks and refuted witnesses",
     "translator harness/go/cmd/gotables (PypiEnvTables: target environment, marker variables, operator numbers, "
@@ -47,8 +48,10 @@ MANIFEST = dict(
           "its panic; Go evaluation equals packaging's on an explicit boolean domain (C16_marker_partial, under the C03 "
           "interface hypothesis). The unrestricted evaluation statement is REFUTED by seven witness classes, all open known "
           "findings replayed on the Go code each run. Tie: Go vs extracted model on requirement strings, names, marker "
-          "trees/values (8 repetitions for map-order nondeterminism) and the guarded edge through the real resolver over a "
-          "LocalClient; direct oracle Go vs extracted spec, and vs packaging itself when python3-vt is present."),
+          "trees/values (8 repetitions for map-order nondeterminism), the guarded edge through the real resolver over a "
+          "LocalClient, and universes with several guarded dependencies and two roots resolved on ONE resolver "
+          "(near-duplicate markers: white space outside and inside literals, quote style, letter case, same marker "
+          "under other extras), where every edge must follow ITS marker; direct oracle Go vs extracted spec, and vs packaging itself when python3-vt is present."),
     note=("Trusted: Coq kernel (+vm_compute), gotables translator, extraction and driver.ml, Go harness, python "
           "generators/oracle, the hand transcription of packaging 26.3 in Spec/Pep508Spec.v (re-validated against packaging "
           "on every generated case when python3-vt exists, otherwise evidence says so). PEP 440 is an oracle on both sides "
@@ -247,6 +250,7 @@ def run(ctx):
     check_names(ctx, rng, ref)
     req_texts = check_requirements(ctx, rng, ref)
     marker_texts = check_markers(ctx, rng, ref, env, env_json)
+    check_multi(ctx, rng, ref, env, env_json)
     check_malformed(ctx, rng, req_texts, marker_texts)
 
 
@@ -434,7 +438,7 @@ def eval_markers(ctx, ref, env, env_json, trees, extras, wts):
     for i in range(len(trees)):
         out.append(dict(tree=trees[i], extras=extras[i], text=texts[i], wf=bool(printed[i][1]), case=full[i],
                         impl=impl[i], model=model[i], eimpl=eimpl[i], emodel=emodel[i], spec=spec[i][0], dom=bool(spec[i][1]),
-                        pk=pk[i], c03_bad=c03_bad[i], valid=valids[i],
+                        pk=pk[i], c03_bad=c03_bad[i], valid=valids[i], tabv=tabv[i],
                         spec_tab={(o, r, l): res for (o, r, l), res in zip(queries[i], spec_res[i])}))
     return out
 
@@ -590,7 +594,7 @@ def check_markers(ctx, rng, ref, env, env_json):
         if (len(atoms) >= 2 or c["extras"]) and sp[0] == "ok":
             ctx.nontriv(("marker", c["text"], tuple(c["extras"])))
         record_marker(ctx, ref, env, env_json, c, budget)
-        if shown < 3 and len(atoms) >= 2:
+        if shown < 2 and len(atoms) >= 2:
             shown += 1
             ctx.sample({"kind": "marker", "text": s8(c["text"]), "extras": [s8(e) for e in c["extras"]], "go": c["impl"][:200],
                         "spec": sx(c["spec"]), "in_domain": c["dom"]})
@@ -599,6 +603,161 @@ def check_markers(ctx, rng, ref, env, env_json):
         raise lib.BuildError("generator degenerate", "markers in the proved domain: %d of %d; accepted by Go: %d" % (
             nin, nin + nout, ctx.dist.get("marker:go-ok", 0)))
     return [c["text"] for c in cases]
+
+
+def multi_line(group_roots):
+    """case text of a marker_multi case: roots of evaluated single cases, with the union of their oracle tables"""
+    valid, sat = {}, {}
+    for root in group_roots:
+        for c in root:
+            for k, b in c["tabv"][0]:
+                valid.setdefault(k, b)
+            for o, sp_, cand, r in c["tabv"][1]:
+                sat.setdefault((o, sp_, cand), r)
+    roots = [[[c["text"], c["extras"]] for c in root] for root in group_roots]
+    return sx([roots, [[k, b] for k, b in valid.items()], [[o, a, b, r] for (o, a, b), r in sat.items()]])
+
+
+def judge_multi(group_roots, impl_line, model_line):
+    """findings of one marker_multi case: (kind, what, observed, required)"""
+    out = []
+    if '"oom"' not in model_line and '"badcase"' not in model_line and impl_line != model_line:
+        out.append(("divergence", "model and Go disagree on the guarded edges of a universe with several markers", impl_line, model_line))
+    res = parse_sx(impl_line)
+    for root, r in zip(group_roots, res):
+        gos = [go_outcome(c["impl"]) for c in root]
+        sps = [spec_outcome(c["spec"]) for c in root]
+        tag = r[0].decode()
+        if tag in ("panic", "inconsistent", "grapherr"):
+            out.append(("violation", "resolution of a root with several guarded dependencies panics or yields an inconsistent graph", sx(r), "edges or an error"))
+        elif tag == "err":
+            if all(g[0] == "ok" for g in gos):
+                out.append(("violation", "resolution fails although every marker of the root evaluates on its own", sx(r),
+                            sx([b"edges"] + [g[1] for g in gos])))
+        elif tag == "edges":
+            if any(g[0] != "ok" for g in gos):
+                out.append(("violation", "resolution succeeds although a marker of the root is rejected on its own", sx(r), sx([b"err"])))
+            else:
+                for i, (g, sp_, b) in enumerate(zip(gos, sps, r[1:])):
+                    if b != g[1]:
+                        req = sp_[1] if sp_ == g else g[1]
+                        out.append(("violation", "a guarded edge is not followed exactly when ITS marker holds: marker %d of the root "
+                                    "(%s) evaluates to %d on its own%s, but its edge is %s when the same resolver also meets the "
+                                    "other markers of the universe" % (i, s8(root[i]["text"]), g[1],
+                                                                        " (packaging: %d)" % sp_[1] if sp_[0] == "ok" else "",
+                                                                        "present" if b else "absent"),
+                                    sx(r), "edge %d = %d" % (i, req)))
+    return out
+
+
+def run_multi(ctx, groups):
+    lines = [multi_line(g) for g in groups]
+    return ctx.impl("marker_multi", lines), ctx.model("marker_multi", lines)
+
+
+def shrink_multi(ctx, group, kind):
+    """smallest sub-universe (two markers, in one root or in two) that still shows a finding of the same kind"""
+    flat = [c for root in group for c in root]
+    cands = []
+    for a in flat:
+        for b in flat:
+            if a is not b:
+                cands.append([[a], [b]])
+                cands.append([[a, b]])
+    cands = cands[:200]
+    if not cands:
+        return group
+    impl, model = run_multi(ctx, cands)
+    for g, x, y in zip(cands, impl, model):
+        if any(k == kind for k, _, _, _ in judge_multi(g, x, y)):
+            return g
+    return group
+
+
+def multi_input(group):
+    return {"kind": "marker_multi",
+            "roots": [[{"marker": s8(c["text"]), "extras": [s8(e) for e in c["extras"]], "tree": sx(c["tree"])} for c in root] for root in group],
+            "arg": multi_line(group)}
+
+
+def check_multi(ctx, rng, ref, env, env_json):
+    """Several guarded dependencies per resolver, two roots resolved one after the other on the same resolver,
+    with near-duplicate markers (white space outside and inside literals, quote style, letter case) and the same
+    marker under different requested extras: each edge must be present exactly when ITS marker holds."""
+    nb = ctx.scale(500, 10000)
+    bases = []
+    if ctx.replay:
+        for v in (ctx.replay.get("violations") or []):
+            inp = v.get("input")
+            if isinstance(inp, dict) and inp.get("kind") == "marker_multi":
+                bases.append(("replay", [[(parse_sx(m["tree"]), [e.encode("latin-1") for e in m["extras"]]) for m in root] for root in inp["roots"]]))
+    for _ in range(nb):
+        r = rng.random()
+        if r < 0.45:
+            t = [0, G.wsp(rng), G.wsp(rng), G.wsp(rng), G.wsp(rng), G.env_atom(rng, env)]
+        elif r < 0.6:
+            t = [rng.choice([1, 2]), [0, b"", b" ", b" ", b" ", G.env_atom(rng, env)], b" ", G.gen_tree(rng, 0, True)]
+        else:
+            t = G.gen_tree(rng, rng.choice([0, 0, 1]), True)
+        members = [t] + G.near_duplicates(rng, t)
+        rng.shuffle(members)
+        members = members[:rng.choice([2, 3, 4, 5])]
+        items = [(m, G.gen_extras_request(rng)) for m in members]
+        if rng.random() < 0.3:
+            items.append((items[0][0], G.gen_extras_request(rng)))     # the same marker under other extras
+        rng.shuffle(items)
+        k = rng.randrange(1, len(items)) if len(items) > 1 and rng.random() < 0.7 else len(items)
+        bases.append(("gen", [items[:k], items[k:]] if k < len(items) else [items]))
+    flat_t, flat_e = [], []
+    for _, roots in bases:
+        for root in roots:
+            for t, e in root:
+                flat_t.append(t)
+                flat_e.append(e)
+    cases = eval_markers(ctx, ref, env, env_json, flat_t, flat_e, [b""] * len(flat_t))
+    groups, pos = [], 0
+    for _, roots in bases:
+        g = []
+        for root in roots:
+            g.append(cases[pos:pos + len(root)])
+            pos += len(root)
+        if all(c["wf"] for root in g for c in root):
+            groups.append(g)
+    impl, model = run_multi(ctx, groups)
+    ctx.count("corr:marker_multi", len(groups))
+    budget = 4
+    shown = 0
+    for g, x, y in zip(groups, impl, model):
+        ctx.count("multi:markers", sum(len(r) for r in g))
+        ctx.count("multi:root-" + "/".join(sorted(set(parse_sx(x)[k][0].decode() for k in range(len(g))))))
+        vals = set(c["impl"].split(" ")[1] if c["impl"].startswith('("ok"') else "err" for root in g for c in root)
+        if len(vals) > 1:
+            ctx.nontriv(("multi", multi_line(g)))
+            ctx.count("multi:members-differ-in-value")
+        fs = judge_multi(g, x, y)
+        seen = set()
+        for kind, what, observed, required in fs:
+            if kind in seen:
+                continue
+            seen.add(kind)
+            small = g
+            if budget > 0:
+                budget -= 1
+                small = shrink_multi(ctx, g, kind)
+                if small is not g:
+                    xi, yi = run_multi(ctx, [small])
+                    f2 = [f for f in judge_multi(small, xi[0], yi[0]) if f[0] == kind]
+                    if f2:
+                        kind, what, observed, required = f2[0]
+            if kind == "divergence":
+                if sum(1 for d in ctx.divergences if d["case_kind"] == "marker_multi") < 50:
+                    ctx.divergence("marker_multi", json.dumps(multi_input(small)), observed, required)
+            else:
+                ctx.violation(what, multi_input(small), observed=observed, required=required)
+        if shown < 1 and len(vals) > 1:
+            shown += 1
+            ctx.sample({"kind": "marker_multi", "roots": [[{"marker": s8(c["text"]), "extras": [s8(e) for e in c["extras"]]} for c in root] for root in g],
+                        "go": x[:200]})
 
 
 def check_malformed(ctx, rng, req_texts, marker_texts):
